@@ -671,6 +671,9 @@ def run_setters(case, ctx):
     ctx.nontrivial(True)
 
 
+# libFuzzer executions per shard and @given test of the coverage-guided extra of the thorough tier (vp/fuzz.py)
+FUZZ = 2000
+
 TESTS = [
     Test('structure', run_structure, strategy=lambda tier: structure_cases(),
          examples={'quick': 5000, 'thorough': 200000}),
